@@ -183,6 +183,7 @@ class Judge:
         self.stats = collections.Counter()
         self.devs = []
         self.wrapper_level = set()
+        self.expected = collections.Counter()    # (plat, class demanded by the table) over delivered faults
 
     def keys(self, plat):
         return sorted(self.plat_out[plat]["slots"])
@@ -241,10 +242,12 @@ class Judge:
         where = "%s %s.%s() [pid %d, %s, %s error %s at per-process native access #%d = %s]" % (
             via, plat, m, row["pid"], pidclass(row), kind, row["e"], row["site"], ans["fn"])
         replay = {"platform": plat, "row": row, "via": via, "allowed": allowed, "answer": ans}
+        for a in allowed:
+            self.expected[(plat, a)] += 1
+        if row["pid"] == 0 and "AccessDenied" in allowed and row["e"] in ("EIO", "EINVAL"):
+            self.pid0[plat] += 1
         if cls in allowed:
             self.seen[(plat, cls)] += 1
-            if row["pid"] == 0 and cls == "AccessDenied" and row["e"] in ("EIO", "EINVAL"):
-                self.pid0[plat] += 1
             if cls in PSUTIL_EXC:
                 if ans.get("pid") != row["pid"] or ans.get("name") != ans.get("cached"):
                     ctx.disagree("conf:%s:%s:exc-fields" % (plat, m),
@@ -281,7 +284,13 @@ class Judge:
                     methods[base].add(m)
             self.wrapper_level = {b for b, ms in methods.items() if len(ms) >= 2}
         for base, plat, m, site, via, desc, replay in self.devs:
-            sig = base if base in self.wrapper_level else base + ":" + m
+            if base in self.wrapper_level:
+                sig = base
+            elif base.endswith("->returned"):
+                # one method swallowing one error is one behaviour, whatever the PID class
+                sig = "conf:%s:%s:returned:%s" % (plat, replay["row"]["e"], m)
+            else:
+                sig = base + ":" + m
             self.ctx.disagree(sig, desc, replay)
         self.devs = []
 
@@ -417,8 +426,11 @@ def check(ctx):
         "exported names are checked with hasattr(psutil, name) and membership in psutil.__all__",
     ]
     c = consts(4 if thorough else 3)
+    # the decision table does not mention the fault site (TLC checks MethodIndependent;
+    # Expected has no site parameter), so its meta-properties are checked on the rows with site 1
+    cm = consts(1)
     mc = []
-    th = threading.Thread(target=model_check, args=(c, mc))
+    th = threading.Thread(target=model_check, args=(cm, mc))
     th.start()
     evs = load_events(ctx, c)
     by_kind = collections.defaultdict(list)
@@ -546,12 +558,12 @@ def check(ctx):
         ctx.notes.append("platform Process attributes outside the table (not replayed): %r" % unknown_methods)
 
     # ---- mode 4 ----------------------------------------------------------------
-    trace_validate(ctx, judge, plat_out, cfgs, 12000 if thorough else 2500)
+    trace_validate(ctx, judge, plat_out, cfgs, 30000 if thorough else 2500)
 
     # ---- the model check that ran meanwhile -------------------------------------
     th.join()
     r = mc[0]
-    ctx.tlc("decision-table", r, {k: (sorted(v) if isinstance(v, set) else v) for k, v in c.items()})
+    ctx.tlc("decision-table", r, {k: (sorted(v) if isinstance(v, set) else v) for k, v in cm.items()})
     if r.violated:
         tr = tlc.trace_events(r.trace)
         ctx.disagree("model:%s" % r.violated, "TLC: meta-property %s of the decision table is violated\n%s"
@@ -561,7 +573,9 @@ def check(ctx):
     for p in PLATFORMS:
         want = ["NoSuchProcess", "AccessDenied", "Unchanged"] + ([] if p == "windows" else ["ZombieProcess"])
         for cls in want:
-            if not judge.seen[(p, cls)]:
+            if not judge.expected[(p, cls)]:
+                raise core.Machinery("vacuity: no delivered fault on %s demanded %s" % (p, cls))
+            if not judge.seen[(p, cls)] and not ctx.violations:
                 raise core.Machinery("vacuity: outcome class %s was never observed on %s" % (cls, p))
         if plat_out[p]["pid0rule"] and not judge.pid0[p]:
             raise core.Machinery("vacuity: the PID 0 rule was never exercised on %s" % p)
@@ -575,8 +589,9 @@ def check(ctx):
             raise core.Machinery("vacuity: %s: both kinds of native access must fail at least once (%r)" % (p, dict(judge.kinds)))
     if not lay_ok[("windows", "alt")] and not any(v[0].startswith("layout:windows") for v in ctx.violations):
         raise core.Machinery("vacuity: no fallback-record layout row of windows matched")
-    if judge.stats["fired"] < 0.5 * len(chosen):
-        raise core.Machinery("vacuity: only %d of %d rows had their fault delivered" % (judge.stats["fired"], len(chosen)))
+    site1 = sum(1 for e in chosen if e["row"]["site"] == 1)
+    if judge.stats["fired"] < 0.8 * site1:
+        raise core.Machinery("vacuity: only %d faults were delivered for %d rows with site 1" % (judge.stats["fired"], site1))
 
 
 # ---------------------------------------------------------------------------
